@@ -334,7 +334,10 @@ Lemma mutators_invalidate (l : localization) r rs :
   (l_sync B l = true -> l_bundles B (set_async B l) = None /\ l_sync B (set_async B l) = false) /\
   (l_sync B l = false -> set_async B l = l).
 Proof.
-  repeat split; try reflexivity; unfold set_async; intros ->; reflexivity.
+  repeat split; try reflexivity.
+  - unfold set_async. rewrite H. reflexivity.
+  - unfold set_async. rewrite H. reflexivity.
+  - intros H. unfold set_async. rewrite H. reflexivity.
 Qed.
 
 End LocalizationProofs.
